@@ -115,6 +115,11 @@ func tagToField(input reflect.Value, tagType TagType) map[string]reflect.Value {
 			names = append(names, multirefs...)
 
 			for _, name := range names {
+				if name == "" {
+					// Missing or empty multiref tag, the empty
+					// string is not a valid key
+					continue
+				}
 				ttf[name] = field
 			}
 		case Doc:
